@@ -8,6 +8,8 @@ PROPS = {
     'C03': 'rsym.props.c03',
     'C04': 'rsym.props.c04',
     'C06': 'rsym.props.c06',
+    'C12': 'rsym.props.c12',
+    'C13': 'rsym.props.c13',
     'C14': 'rsym.props.c14',
     'C15': 'rsym.props.c15',
     'C16': 'rsym.props.c16',
